@@ -1219,6 +1219,31 @@ func (g *Gen) misuseOp() *Op {
 			}
 		}
 		op.Sub = 0
+	case "debugguardN":
+		e, ok := g.pickAliveWhere(func(e EID, st *MEnt) bool { return st.Mask.Len() >= 1 })
+		if !ok {
+			return nil
+		}
+		op.E = e
+		mask := g.M.Ents[e].Mask
+		// uniform over the arities that fit
+		byArity := map[int][]int{}
+		var ar []int
+		for ti := range typed.Tuples {
+			cs := typed.Tuples[ti].Comps
+			if typed.Tuples[ti].NewFilter != nil && mask.Contains(SetOf(cs...)) {
+				if len(byArity[len(cs)]) == 0 {
+					ar = append(ar, len(cs))
+				}
+				byArity[len(cs)] = append(byArity[len(cs)], ti)
+			}
+		}
+		if len(ar) == 0 {
+			return nil
+		}
+		l := byArity[ar[R.Intn(len(ar))]]
+		op.Tuple = l[R.Intn(len(l))]
+		op.Sub = 0
 	case "empty":
 		e, ok := g.pickAlive()
 		if !ok {
